@@ -31,6 +31,9 @@ type Case struct {
 	// OthersMulti: every other step has threshold 2 and two agreeing links as well (a disagreement in one step
 	// must not be forgotten because a later step is in order)
 	OthersMulti bool `json:"others_multi,omitempty"`
+	// InspNamed: the layout has an inspection that bears the name of its first / last step and records other
+	// artifacts (the summary reports the steps' artifacts all the same)
+	InspNamed string `json:"inspection_named_like,omitempty"`
 }
 
 var diffs = []string{"mat-added", "mat-removed", "mat-renamed", "mat-digest", "prod-added", "prod-removed", "prod-renamed", "prod-digest",
@@ -193,7 +196,15 @@ func build(base string, cs Case) built {
 		}
 	}
 	owner := gen.Key("p256")
-	l := gen.Layout(gen.FarFuture, steps, nil, keys)
+	var insp []intoto.Inspection
+	if cs.InspNamed != "" {
+		name := stepName(0)
+		if cs.InspNamed == "last" {
+			name = stepName(cs.Steps - 1)
+		}
+		insp = append(insp, gen.Inspection(name, []string{"sh", "-c", "echo z > unrelated.txt"}, [][]string{{"ALLOW", "*"}}, [][]string{{"ALLOW", "*"}}))
+	}
+	l := gen.Layout(gen.FarFuture, steps, insp, keys)
 	b := built{md: gen.MustWrap(l, cs.DSSE, owner.Full), keys: map[string]intoto.Key{owner.ID: owner.Pub}, linkDir: dir}
 	b.wantM, _ = baseArts(0)
 	_, b.wantP = baseArts(cs.Steps - 1)
@@ -218,6 +229,10 @@ func silence() func() {
 func once(b built, cs Case, ch *mcx.Chooser) (obs, sig string) {
 	intoto.VerifPermHook = func(site string, n int) []int { return ch.Perm(site, n) }
 	defer func() { intoto.VerifPermHook = nil }()
+	if cs.InspNamed != "" {
+		os.Chdir(gen.FreshDir(filepath.Dir(b.linkDir), "cwd")) // the inspection runs in, and records, the working directory
+		defer os.Chdir("/")
+	}
 	sum, err := intoto.InTotoVerify(b.md, b.keys, b.linkDir, cs.Name, map[string]string{}, nil, false)
 	wantAccept := cs.Diff == ""
 	unc := "no-uncounted"
@@ -321,6 +336,11 @@ func run(c *mcx.Ctx) {
 						if steps > 1 && extra == 0 {
 							do(Case{Steps: steps, Chosen: chosen, Threshold: k, Extra: extra, Name: "x", DSSE: dsse, Strict: true, OthersMulti: true})
 						}
+						if extra == 0 && k <= 2 {
+							for _, in := range []string{"first", "last"} {
+								do(Case{Steps: steps, Chosen: chosen, Threshold: k, Extra: extra, Name: "x", DSSE: dsse, Strict: true, InspNamed: in})
+							}
+						}
 						if k+extra < 2 {
 							continue
 						}
@@ -378,7 +398,7 @@ func replay(c *mcx.Ctx, raw json.RawMessage) (string, string) {
 func init() {
 	mcx.Register(&mcx.Driver{
 		ID: "C05", Run: run, Replay: replay,
-		Rule: "full product: layouts with 1..3 steps x the step that has several links x threshold 1..3 x 0/1 valid links beyond the threshold x {no difference, one of 13 single-point differences (material/product path added, removed, renamed, re-spelled as ./path, digest changed, algorithm renamed, algorithm added) on link j} x summary name {\"\",x} x {legacy, DSSE}; also with every other step carrying two agreeing links for threshold 2 (a later step in order must not hide an earlier disagreement); " +
+		Rule: "full product: layouts with 1..3 steps x the step that has several links x threshold 1..3 x 0/1 valid links beyond the threshold x {no difference, one of 13 single-point differences (material/product path added, removed, renamed, re-spelled as ./path, digest changed, algorithm renamed, algorithm added) on link j} x summary name {\"\",x} x {legacy, DSSE}; also with an inspection that bears the name of the first / last step and records other artifacts, and with every other step carrying two agreeing links for threshold 2 (a later step in order must not hide an earlier disagreement); " +
 			"plus every non-empty subset of {unsigned, unauthorised, tampered} uncounted links carrying other artifacts, a link validly signed by a functionary of the other steps only, unparsable files named like links of the step (sorting before, between and after the real ones), and those together x strict/permissive rules; a digest difference on each counted link next to the unparsable files; each case under EVERY iteration order of the reference-link pick, the link comparison and the counting loop (the comparison loop and every other map range: one order deviation, for cases with <= 2 links in quick and all cases in thorough; quick has at most 3 links per step, thorough 4). Counted links always differ in command and by-products (which is legitimate). " +
 			"non-trivial = more than one counted link or some uncounted link. states = cases, transitions = choice points passed.",
 		Assumptions: []string{"which links count is known by construction", "iteration order inside dependencies is not owned"},
